@@ -65,7 +65,7 @@ func TestC19Driver(t *testing.T) {
 			}
 			s.Star = rapid.SampledFrom([]int{-1, -1, 0, 1, 2}).Draw(t, "star")
 			s.Bad = rapid.SampledFrom([]string{"", "", "", "", "table", "column", "not-select", "syntax"}).Draw(t, "bad")
-			s.Plan = rapid.SampledFrom([]string{"all", "all", "close", "cancel", "cancel-async", "corrupt", "truncate", "prepared", "prepared-alter"}).Draw(t, "plan")
+			s.Plan = rapid.SampledFrom([]string{"all", "all", "close", "cancel", "cancel-async", "corrupt", "truncate", "prepared", "prepared-alter", "nested"}).Draw(t, "plan")
 			s.K = rapid.IntRange(0, 12).Draw(t, "k")
 			s.Yields = rapid.IntRange(0, 50).Draw(t, "yields")
 			s.Corrupt = rapid.IntRange(0, 1000).Draw(t, "corrupt")
@@ -256,6 +256,10 @@ func run(r *vt.Run, t vt.TB, s spec) {
 			}
 		}
 		runPrepared(r, t, s, db, path, query, expanded, want, wantErr, before, alter, renative)
+		return
+	}
+	if s.Plan == "nested" {
+		runNested(r, t, s, db, path, query, want, wantErr, before)
 		return
 	}
 	ctx, cancel := context.WithCancel(context.Background())
@@ -473,6 +477,117 @@ func runPrepared(r *vt.Run, t vt.TB, s spec, db *sql.DB, path, query string, exp
 			r.Violation(t, s, "silently-short", "%s (prepared statement, round %d): %d of %d rows", query, round, len(got), len(want))
 			return
 		}
+	}
+}
+
+// runNested: two result sets of one connection (a transaction or a sql.Conn)
+// open at the same time, as in `for outer.Next() { tx.Query(inner) }`: after K
+// rows of the first, the same query runs completely on the same connection,
+// then the first is read to its end. Both must deliver the native rows.
+func runNested(r *vt.Run, t vt.TB, s spec, db *sql.DB, path, query string, want [][]interface{}, wantErr error, before int) {
+	ctx := context.Background()
+	type querier interface {
+		QueryContext(ctx context.Context, query string, args ...interface{}) (*sql.Rows, error)
+	}
+	var q querier
+	kind := "tx"
+	if s.Corrupt%2 == 0 {
+		tx, err := db.Begin()
+		if err != nil {
+			r.Harness(t, "begin: %v", err)
+		}
+		defer tx.Rollback()
+		q = tx
+	} else {
+		kind = "conn"
+		c, err := db.Conn(ctx)
+		if err != nil {
+			r.Harness(t, "conn: %v", err)
+		}
+		defer c.Close()
+		q = c
+	}
+	readAll := func(rows *sql.Rows, stopAfter int) (got [][]interface{}, surfaced error) {
+		cols, _ := rows.Columns()
+		for (stopAfter < 0 || len(got) < stopAfter) && rows.Next() {
+			dest := make([]interface{}, len(cols))
+			ptrs := make([]interface{}, len(cols))
+			for i := range dest {
+				ptrs[i] = &dest[i]
+			}
+			if err := rows.Scan(ptrs...); err != nil {
+				return got, err
+			}
+			got = append(got, dest)
+		}
+		if stopAfter < 0 || len(got) < stopAfter {
+			surfaced = rows.Err()
+		}
+		return got, surfaced
+	}
+	judge := func(which string, got [][]interface{}, surfaced error) bool {
+		for i := range got {
+			if i >= len(want) || renderAny(got[i]) != renderAny(want[i]) {
+				r.Violation(t, s, "row-differs", "%s (two result sets on one %s, %s): row %d is %s, natively present: %v", query, kind, which, i, renderAny(got[i]), i < len(want))
+				return false
+			}
+		}
+		if wantErr != nil && surfaced == nil {
+			r.Violation(t, s, "error-not-surfaced", "%s (two result sets on one %s, %s): the native API fails (%v), database/sql reports nothing after %d rows", query, kind, which, wantErr, len(got))
+			return false
+		}
+		if wantErr == nil && surfaced != nil {
+			r.Violation(t, s, "spurious-error", "%s (two result sets on one %s, %s, the first one read up to row %d): %v; the native select succeeds with %d rows", query, kind, which, s.K, surfaced, len(want))
+			return false
+		}
+		if wantErr == nil && len(got) != len(want) {
+			r.Violation(t, s, "silently-short", "%s (two result sets on one %s, %s): %d of %d rows", query, kind, which, len(got), len(want))
+			return false
+		}
+		return true
+	}
+	outer, err := q.QueryContext(ctx, query)
+	if err != nil {
+		if wantErr == nil {
+			r.Violation(t, s, "spurious-error", "%s (on a %s): %v", query, kind, err)
+		}
+		return
+	}
+	head, herr := readAll(outer, s.K)
+	inner, err := q.QueryContext(ctx, query)
+	var igot [][]interface{}
+	isurf := err
+	if err == nil {
+		igot, isurf = readAll(inner, -1)
+		inner.Close()
+	}
+	var tail [][]interface{}
+	osurf := herr
+	if herr == nil {
+		tail, osurf = readAll(outer, -1)
+	}
+	outer.Close()
+	if !judge("second result set", igot, isurf) {
+		return
+	}
+	if !judge("first result set", append(head, tail...), osurf) {
+		return
+	}
+	deadline := time.Now().Add(5 * time.Second)
+	for producerGoroutines() > before {
+		if time.Now().After(deadline) {
+			r.Violation(t, s, "goroutine-leak", "%s (two result sets on one %s): a producer goroutine is still running 5 s after both were closed", query, kind)
+			return
+		}
+		time.Sleep(2 * time.Millisecond)
+	}
+	st, perr := probe.Probe(path)
+	if perr != nil {
+		r.Harness(t, "probe: %v", perr)
+	}
+	me := os.Getpid()
+	if (st.Shared.Type != "none" && st.Shared.Pid == me) || (st.Pending.Type != "none" && st.Pending.Pid == me) {
+		r.Violation(t, s, "lock-left-behind", "%s (two result sets on one %s): both closed, this process still holds %s", query, kind, st)
 	}
 }
 
